@@ -154,7 +154,7 @@ def grep_forbidden(modules):
 # ---------------------------------------------------------------- streams
 
 def fixes_arg():
-    return "".join("1" if FIXES[k] else "0" for k in ["f1", "f2", "f3", "f4", "f5", "f2b", "f8", "f10"])
+    return "".join("1" if FIXES[k] else "0" for k in ["f1", "f2", "f3", "f4", "f5", "f2b", "f8", "f10", "f14"])
 
 
 def run_stream(pid, idx, hargs, per_case_timeout=20, binary=None):
@@ -334,7 +334,8 @@ def check(pid, tier, seed, replay=None):
                     continue
                 classify = on_def
             evaluations += 1
-            h = hashlib.sha1(line.split(" IMPL ")[0].split(" ", 2)[2].encode()).hexdigest()
+            hparts = line.split(" IMPL ")[0].split(" ", 2)
+            h = hashlib.sha1((hparts[2] if len(hparts) > 2 else line).encode()).hexdigest()
             distinct.add(h)
             info = classify(line, impl, mobs, extra) if classify else {}
             for k in info.get("tags", []):
